@@ -21,6 +21,9 @@
        the run under faults equals the run of the same reader over the schedule with the Fail
        events removed (token list, terminal event -- BufferFull included -- and position), or is
        a proper prefix of that run's tokens followed by OErr E_Io.
+     * C20_read_bytes_fault / C20_skip_container_fault / C20_skip_unquoted_value_fault: the other
+       operations of the reader either return Err E_Io or the outcome of the fault-free twin
+       (same bytes, same successor reader up to the erased events, same error, same fuel use).
      * C20_persistent_errors_call / C20_persistent_errors_run / C20_stream_fail_first: while the Read is failing, no call
        reports a clean end or Eof, a call that still returns a token did not touch the Read, and
        the run ends with the I/O error.
@@ -115,6 +118,29 @@ Theorem C20_clean_no_fail : forall sch, no_fail (clean sch).
 Proof. exact clean_no_fail. Qed.
 Theorem C20_clean_id : forall sch, no_fail sch -> clean sch = sch.
 Proof. exact clean_id. Qed.
+
+(* ---------- read_bytes / skip_container / skip_unquoted_value ---------- *)
+(* oreq R o1 o2: same outcome class (Ok/Err e/Panic s/OOB s/OutOfFuel) with R on the Ok payloads *)
+Theorem C20_read_bytes_fault : forall fuel r1 r2 n, readeq r1 r2 ->
+  read_bytes fuel r1 n = Err E_Io \/
+  oreq (fun x y => fst x = fst y /\ readeq (snd x) (snd y)) (read_bytes fuel r1 n) (read_bytes fuel r2 n).
+Proof. exact read_bytes_fault. Qed.
+Print Assumptions C20_read_bytes_fault.
+
+Theorem C20_skip_container_fault : forall fuel r1 r2, readeq r1 r2 ->
+  skip_container fuel r1 = Err E_Io \/ oreq readeq (skip_container fuel r1) (skip_container fuel r2).
+Proof. exact skip_container_fault. Qed.
+Print Assumptions C20_skip_container_fault.
+
+Theorem C20_skip_unquoted_value_fault : forall fuel r1 r2, readeq r1 r2 ->
+  skip_unquoted_value fuel r1 = Err E_Io \/
+  oreq readeq (skip_unquoted_value fuel r1) (skip_unquoted_value fuel r2).
+Proof. exact skip_unquoted_value_fault. Qed.
+Print Assumptions C20_skip_unquoted_value_fault.
+
+(* every reader has a fault-free twin *)
+Theorem C20_twin_exists : forall r, readeq r (erase r) /\ no_fail (sched (rrd (erase r))).
+Proof. intros r. split; [apply readeq_erase|apply clean_no_fail]. Qed.
 
 (* ---------- a failing Read ---------- *)
 (* While the next event of the schedule is Fail (cap > 0 = a real buffer): a call returns a
@@ -262,3 +288,16 @@ Example C20_ex_lockstep_small_buffer :
            (reader_new 2 exs_input (clean [Data 1; Fail; Data 1; Data 1; Fail]))
     = ([OTok ROpen; OErr E_BufferFull], 1).
 Proof. repeat split; vm_compute; reflexivity. Qed.
+
+(* skipping 'a=b} c' (the inside of a container): the fault is hit when the closing brace is not
+   yet buffered, and is harmless when it is *)
+Definition exk_input : bytes := [97; 61; 98; 125; 32; 99]%N.
+Example C20_ex_skip_container :
+  skip_container 20 (reader_new 8 exk_input [Data 3; Fail; Data 10]) = Err E_Io /\
+  exists r', skip_container 20 (reader_new 8 exk_input [Data 4; Fail; Data 10]) = Ok r' /\
+             reader_position r' = 4 /\ In Fail (sched (rrd r')).
+Proof. split; [vm_compute; reflexivity|]. eexists. split; [vm_compute; reflexivity|]. split; [reflexivity|left; reflexivity]. Qed.
+Example C20_ex_read_bytes :
+  read_bytes 20 (reader_new 8 exk_input [Data 3; Fail; Data 10]) 4 = Err E_Io /\
+  exists r', read_bytes 20 (reader_new 8 exk_input [Data 3; Fail; Data 10]) 3 = Ok ([97; 61; 98]%N, r').
+Proof. split; [vm_compute; reflexivity|]. eexists. vm_compute. reflexivity. Qed.
